@@ -152,4 +152,6 @@ def structural():
         "status": "proved" if not unordered else "failed",
         "note": "; ".join(sorted(set(unordered))[:6]),
     })
+    from .frame_written import written_only_while_built
+    obls += written_only_while_built("C05")
     return obls
